@@ -244,14 +244,6 @@ Qed.
 Lemma filter_ext_In' {X} (f g : X -> bool) l : (forall x, In x l -> f x = g x) -> filter f l = filter g l.
 Proof. apply filter_ext_in. Qed.
 
-Lemma NoDup_app' {X} (a b : list X) : NoDup a -> NoDup b -> (forall x, In x a -> ~ In x b) -> NoDup (a ++ b).
-Proof.
-  induction a as [|x a IH]; intros Ha Hb H; [exact Hb|].
-  inversion Ha as [|? ? Hx Ha']; subst. cbn [app]. constructor.
-  - rewrite in_app_iff. intros [Hin|Hin]; [exact (Hx Hin)|]. apply (H x); [left; reflexivity|exact Hin].
-  - apply IH; [exact Ha'|exact Hb|]. intros y Hy. apply H. right; exact Hy.
-Qed.
-
 Lemma In_spec_union x A B : In x (spec_union_list A B) <-> In x A \/ In x B.
 Proof.
   unfold spec_union_list. rewrite in_app_iff, filter_In, negb_true_iff, mem_false.
